@@ -71,57 +71,81 @@ fn dump(d: &Dictionary, q: &QuotedTripleStore) -> Value {
     json!({"s2i": s2i, "i2s": i2s, "next": d.next_id, "c2i": c2i, "i2c": i2c, "next_qt": q.next_qt_id})
 }
 
+/// One call of a sequence; a panic (the dictionary's exhaustion assert, an arithmetic overflow of the
+/// quoted counter) is reported as the output of that call and ends the history.
+fn seq_op(
+    op: &Value,
+    db: Option<&SparqlDatabase>,
+    d: &mut Dictionary,
+    q: &mut QuotedTripleStore,
+) -> Value {
+    let a = op.as_array().unwrap();
+    match (a[0].as_str().unwrap(), db) {
+        ("Enc", Some(db)) => json!({"id": db.dictionary.write().unwrap().encode(a[1].as_str().unwrap())}),
+        ("Dec", Some(db)) => json!({"lex": db.dictionary.read().unwrap().decode(u(&a[1]))}),
+        ("EncQ", Some(db)) => json!({"id": db.quoted_triple_store.write().unwrap().encode(u(&a[1]), u(&a[2]), u(&a[3]))}),
+        ("DecQ", Some(db)) => json!({"key": db.quoted_triple_store.read().unwrap().decode(u(&a[1]))}),
+        ("EncT", Some(db)) => json!({"id": db.encode_term_star(a[2].as_str().unwrap())}),
+        ("DecT", Some(db)) => {
+            let s = db.decode_any(u(&a[1]));
+            let d = db.dictionary.read().unwrap();
+            let q = db.quoted_triple_store.read().unwrap();
+            json!({"str": s, "tree": tree(&d, &q, u(&a[1]), 0)})
+        }
+        ("Enc", None) => json!({"id": d.encode(a[1].as_str().unwrap())}),
+        ("Dec", None) => json!({"lex": d.decode(u(&a[1]))}),
+        ("EncQ", None) => json!({"id": q.encode(u(&a[1]), u(&a[2]), u(&a[3]))}),
+        ("DecQ", None) => json!({"key": q.decode(u(&a[1]))}),
+        ("EncT", None) => json!({"id": enc_tree_raw(d, q, &a[1])}),
+        ("DecT", None) => json!({"str": d.decode_term(u(&a[1]), q), "tree": tree(d, q, u(&a[1]), 0)}),
+        (other, _) => panic!("unknown op {}", other),
+    }
+}
+
 fn run_seq(case: &Value) -> Value {
     let ops = case["ops"].as_array().unwrap().clone();
     let dbmode = case["mode"].as_str() == Some("db");
-    let r = vharness::catch(move || {
-        let mut outs: Vec<Value> = Vec::new();
-        if dbmode {
-            let db = SparqlDatabase::new();
-            for op in &ops {
-                let a = op.as_array().unwrap();
-                let o = match a[0].as_str().unwrap() {
-                    "Enc" => json!({"id": db.dictionary.write().unwrap().encode(a[1].as_str().unwrap())}),
-                    "Dec" => json!({"lex": db.dictionary.read().unwrap().decode(u(&a[1]))}),
-                    "EncQ" => json!({"id": db.quoted_triple_store.write().unwrap().encode(u(&a[1]), u(&a[2]), u(&a[3]))}),
-                    "DecQ" => json!({"key": db.quoted_triple_store.read().unwrap().decode(u(&a[1]))}),
-                    "EncT" => json!({"id": db.encode_term_star(a[2].as_str().unwrap())}),
-                    "DecT" => {
-                        let s = db.decode_any(u(&a[1]));
-                        let d = db.dictionary.read().unwrap();
-                        let q = db.quoted_triple_store.read().unwrap();
-                        json!({"str": s, "tree": tree(&d, &q, u(&a[1]), 0)})
-                    }
-                    other => panic!("unknown op {}", other),
-                };
-                outs.push(o);
-            }
-            let d = db.dictionary.read().unwrap();
-            let q = db.quoted_triple_store.read().unwrap();
-            json!({"outs": outs, "dump": dump(&d, &q)})
-        } else {
-            let mut d = Dictionary::new();
-            let mut q = QuotedTripleStore::new();
-            for op in &ops {
-                let a = op.as_array().unwrap();
-                let o = match a[0].as_str().unwrap() {
-                    "Enc" => json!({"id": d.encode(a[1].as_str().unwrap())}),
-                    "Dec" => json!({"lex": d.decode(u(&a[1]))}),
-                    "EncQ" => json!({"id": q.encode(u(&a[1]), u(&a[2]), u(&a[3]))}),
-                    "DecQ" => json!({"key": q.decode(u(&a[1]))}),
-                    "EncT" => json!({"id": enc_tree_raw(&mut d, &mut q, &a[1])}),
-                    "DecT" => json!({"str": d.decode_term(u(&a[1]), &q), "tree": tree(&d, &q, u(&a[1]), 0)}),
-                    other => panic!("unknown op {}", other),
-                };
-                outs.push(o);
-            }
-            json!({"outs": outs, "dump": dump(&d, &q)})
+    // the public counters may be set before the history starts (boundary cases around 2^31 / u32::MAX)
+    let start_next = case["start_next"].as_u64().map(|x| x as u32);
+    let start_next_qt = case["start_next_qt"].as_u64().map(|x| x as u32);
+    let mut outs: Vec<Value> = Vec::new();
+    let mut d = Dictionary::new();
+    let mut q = QuotedTripleStore::new();
+    let db = if dbmode { Some(SparqlDatabase::new()) } else { None };
+    if let Some(n) = start_next {
+        match &db {
+            Some(db) => db.dictionary.write().unwrap().next_id = n,
+            None => d.next_id = n,
         }
-    });
-    match r {
-        Ok(v) => v,
-        Err(m) => json!({"panic": m}),
     }
+    if let Some(n) = start_next_qt {
+        match &db {
+            Some(db) => db.quoted_triple_store.write().unwrap().next_qt_id = n,
+            None => q.next_qt_id = n,
+        }
+    }
+    let mut panicked = false;
+    for op in &ops {
+        let r = vharness::catch(std::panic::AssertUnwindSafe(|| seq_op(op, db.as_ref(), &mut d, &mut q)));
+        match r {
+            Ok(v) => outs.push(v),
+            Err(m) => {
+                outs.push(json!({"panic": m}));
+                panicked = true;
+                break;
+            }
+        }
+    }
+    let dmp = match &db {
+        Some(db) => {
+            // a panic inside a write guard poisons the lock; the data is still what the failing call left
+            let d = db.dictionary.read().unwrap_or_else(|e| e.into_inner());
+            let q = db.quoted_triple_store.read().unwrap_or_else(|e| e.into_inner());
+            dump(&d, &q)
+        }
+        None => dump(&d, &q),
+    };
+    json!({"outs": outs, "dump": dmp, "panicked": panicked})
 }
 
 // ---- pairs of databases ------------------------------------------------------------------------
@@ -197,6 +221,45 @@ fn dterm(db: &SparqlDatabase, id: u32) -> Value {
     json!([s, tree(&d, &q, id, 0)])
 }
 
+/// For every id the database holds (dictionary, quoted store, quads, graph names, seeds): decode it with
+/// `decode_any`, encode the rendered term again with `encode_term_star`, and report the ids for which the
+/// result is another id (a stable bijection returns the same id and allocates nothing).
+fn roundtrip(db: &SparqlDatabase) -> Value {
+    let mut ids: Vec<u32> = db.dictionary.read().unwrap().id_to_string.keys().copied().collect();
+    ids.extend(db.quoted_triple_store.read().unwrap().id_to_components.keys().copied());
+    for q in db.dataset_index.all_quads() {
+        ids.extend([q.subject, q.predicate, q.object]);
+        if let GraphId::Named(g) = q.graph {
+            ids.push(g);
+        }
+    }
+    for g in db.dataset_index.named_graphs() {
+        if let GraphId::Named(g) = g {
+            ids.push(g);
+        }
+    }
+    for t in db.probability_seeds.keys() {
+        ids.extend([t.subject, t.predicate, t.object]);
+    }
+    ids.sort_unstable();
+    ids.dedup();
+    let before = (db.dictionary.read().unwrap().next_id, db.quoted_triple_store.read().unwrap().next_qt_id);
+    let mut bad: Vec<Value> = Vec::new();
+    for id in &ids {
+        match db.decode_any(*id) {
+            None => bad.push(json!([id, Value::Null, Value::Null])),
+            Some(s) => {
+                let back = db.encode_term_star(&s);
+                if back != *id {
+                    bad.push(json!([id, s, back]));
+                }
+            }
+        }
+    }
+    let after = (db.dictionary.read().unwrap().next_id, db.quoted_triple_store.read().unwrap().next_qt_id);
+    json!({"checked": ids.len(), "mismatches": bad, "allocated": before != after})
+}
+
 fn denotation(db: &SparqlDatabase) -> Value {
     let mut quads: Vec<Value> = Vec::new();
     for q in db.dataset_index.all_quads() {
@@ -238,9 +301,15 @@ fn run_pair(case: &Value) -> Value {
         let un = vharness::catch(std::panic::AssertUnwindSafe(|| a.union(&b)));
         let uj = match un {
             Ok(udb) => {
-                let d = udb.dictionary.read().unwrap();
-                let q = udb.quoted_triple_store.read().unwrap();
-                json!({"den": denotation(&udb), "dump": dump(&d, &q)})
+                let den = denotation(&udb);
+                let dmp = {
+                    let d = udb.dictionary.read().unwrap();
+                    let q = udb.quoted_triple_store.read().unwrap();
+                    dump(&d, &q)
+                };
+                // taken last, because re-encoding would allocate if the result were not a bijection
+                let rt = roundtrip(&udb);
+                json!({"den": den, "dump": dmp, "roundtrip": rt})
             }
             Err(m) => json!({"panic": m}),
         };
@@ -257,9 +326,28 @@ fn run_pair(case: &Value) -> Value {
 
 fn main() {
     vharness::quiet_panics();
-    vharness::run_cases(|case| match case["kind"].as_str() {
-        Some("seq") => run_seq(case),
-        Some("pair") => run_pair(case),
-        _ => json!({"error": "unknown case kind"}),
-    });
+    // like vharness::run_cases, but every result line is flushed at once: a case that aborts the process
+    // (stack overflow on a cyclic quoted store) must not take the results of the cases before it with it
+    use std::io::{BufRead, Write};
+    let args: Vec<String> = std::env::args().collect();
+    if args.len() < 3 {
+        eprintln!("usage: {} <cases.jsonl> <results.jsonl>", args[0]);
+        std::process::exit(2);
+    }
+    let inp = std::io::BufReader::new(std::fs::File::open(&args[1]).expect("open cases"));
+    let mut out = std::fs::File::create(&args[2]).expect("create results");
+    for line in inp.lines() {
+        let line = line.expect("read");
+        if line.trim().is_empty() {
+            continue;
+        }
+        let case: Value = serde_json::from_str(&line).expect("case json");
+        let res = match case["kind"].as_str() {
+            Some("seq") => run_seq(&case),
+            Some("pair") => run_pair(&case),
+            _ => json!({"error": "unknown case kind"}),
+        };
+        writeln!(out, "{}", serde_json::to_string(&res).unwrap()).unwrap();
+        out.flush().unwrap();
+    }
 }
